@@ -238,3 +238,30 @@ package checker
 //@   ensures normal && isBranch(node) ==> (forall i :: 0 <= i && i < len(childrenOf(node)) ==> nodeChecked(childrenOf(node)[i]))
 //@   ensures panics ==> typeis(pv, errors.DocumentError)
 //@   loop 0 invariant forall j :: 0 <= j && j <= rangeindex ==> nodeChecked(childrenOf(node)[j])
+
+// ---- C07/C09: "Check ... terminate[s]" on every type graph: the kind of a key
+// shortcut's type follows or-lists of type references; a type that is being examined
+// is never entered again, so every recursive call grows the in-progress set.
+// The measure is  typeCount(root) - |inProgress|.  ASSUMED at entry (pigeonhole, not
+// proved): the set holds distinct types of root and not s, hence it is smaller than the
+// number of types.  PROVED: s is added before and removed after the alternatives are
+// examined, a type in the set is skipped, the set is the same again on return.
+//@ func actualRootTypeOf(s, root, inProgress)
+//@   props C07 C09
+//@   requires s != nil && root != nil && inProgress != nil && !dom(inProgress, s)
+//@   assumes len(inProgress) < typeCount(root) && 0 <= len(inProgress)
+//@   assumes isNode(s.rootNode)
+//@   assumes forall k string :: dom(root.types, k) ==> root.types[k].schema != nil && isNode(root.types[k].schema.rootNode)
+//@   nopanic
+//@   modifies inProgress[*]
+//@   decreases typeCount(root) - len(inProgress)
+//@   ensures forall q *schema.Schema :: dom(inProgress, q) == old(dom(inProgress, q))
+//@   ensures len(inProgress) == old(len(inProgress))
+//@   loop 0 invariant dom(inProgress, s) && len(inProgress) == old(len(inProgress)) + 1 && (forall q *schema.Schema :: q != s ==> dom(inProgress, q) == old(dom(inProgress, q)))
+//@ func actualRootType(s, root)
+//@   props C07 C09
+//@   requires s != nil && root != nil
+//@   assumes 0 < typeCount(root)
+//@   assumes isNode(s.rootNode)
+//@   assumes forall k string :: dom(root.types, k) ==> root.types[k].schema != nil && isNode(root.types[k].schema.rootNode)
+//@   nopanic
